@@ -168,7 +168,7 @@ def leanchecker(mods):
 # ---------------------------------------------------------------------------------------------
 
 def build_harness(name, backend, srcs=None, extra=None, libs=True, sanitize="address,undefined", opt="-O1",
-                  define_check_strictmod=False, with_prng=True, extra_srcs=None):
+                  define_check_strictmod=False, with_prng=True, extra_srcs=None, with_params=True):
     """Compile harness/<name>.cpp against /repo's *current* headers and lib sources.
     Binaries are cached under build/ keyed by the hash of /repo's include+lib and of the harness."""
     os.makedirs(BUILD, exist_ok=True)
@@ -181,7 +181,7 @@ def build_harness(name, backend, srcs=None, extra=None, libs=True, sanitize="add
         flags += ["-fsanitize=" + sanitize, "-fno-sanitize-recover=all", "-fno-omit-frame-pointer"]
     inc = ["-I" + os.path.join(REPO, "include"), "-I" + os.path.join(REPO, "include", "nfl"),
            "-I" + os.path.join(REPO, "include", "nfl", "prng"), "-I" + HARNESS]
-    libsrc = [os.path.join(REPO, "lib", "params", "params.cpp")]
+    libsrc = [os.path.join(REPO, "lib", "params", "params.cpp")] if with_params else []
     if with_prng:
         libsrc += [os.path.join(REPO, "lib", "prng", "fastrandombytes.cpp"),
                    os.path.join(REPO, "lib", "prng", "randombytes.cpp"),
